@@ -923,10 +923,16 @@ func streamFuzz(o *Out, rng *rand.Rand, thorough bool, _ []string) {
 		if b == 1 {
 			schema = veryDeepSchema(rng, 33+rng.Intn(40))
 		}
+		if b == 2 {
+			schema = allTypesSchema()
+		}
 		docs := genDocs(rng, schema, 2+rng.Intn(5))
 		var meta []byte
 		if b%2 == 0 {
 			meta = docBytes(instantiate(rng, genSchema(rng, 0, 2, false, 5), 0))
+		}
+		if b == 2 {
+			meta = docBytes(instantiate(rng, allTypesSchema(), 0))
 		}
 		stream := collect("batch", 2, meta, docs)
 		tds := topDocs(stream)
@@ -982,6 +988,19 @@ func streamFuzz(o *Out, rng *rand.Rand, thorough bool, _ []string) {
 			del := append(append([]byte{}, stream[:k]...), stream[k+1:]...)
 			add(del, good)
 		}
+		// one length field of a document claims more or fewer bytes than its parts: every length field
+		// of every outer document (metadata included), every other length left consistent
+		for _, td := range tds {
+			good := goodTables(chunksBefore(td.off))
+			for _, m := range lenMutants(stream[td.off : td.off+td.l]) {
+				ex := good
+				if _, err := parseDocStrict(m); err != nil {
+					ex = "malformed " + good // the harness's own strict parser refuses the document
+				}
+				add(append(append(append([]byte{}, stream[:td.off]...), m...), stream[td.off+td.l:]...), ex)
+				o.count("length-field-mutants-outer")
+			}
+		}
 		// mutations of the decompressed payload (re-compressed so that zlib does not mask them)
 		for ti, td := range tds {
 			if td.payload == nil {
@@ -1007,6 +1026,15 @@ func streamFuzz(o *Out, rng *rand.Rand, thorough bool, _ []string) {
 			}
 			// perturbed count fields
 			refLen := int(binary.LittleEndian.Uint32(p))
+			// the same for the reference document
+			for _, m := range lenMutants(p[:refLen]) {
+				ex := good
+				if _, err := parseDocStrict(m); err != nil {
+					ex = "malformed " + good
+				}
+				add(mk(append(append([]byte{}, m...), p[refLen:]...), -1, nil), ex)
+				o.count("length-field-mutants-reference")
+			}
 			for _, field := range []int{refLen, refLen + 4} {
 				for _, v := range []uint32{0, 1, 3, 4, 5, 1 << 31, 1<<31 - 1, 1<<32 - 1} {
 					cur := binary.LittleEndian.Uint32(p[field:])
